@@ -44,7 +44,7 @@ def fields_of(cells):
             if p['values']: out.append((nm + '.value0', list(range(p['valpos'], p['valpos'] + w))))
     return out, D
 
-BOUNDARY8 = [0, 1, 0x7F, 0x80, 0xFF]; BOUNDARY16 = [0, 1, 0x7F, 0x80, 0xFF, 0x7FFF, 0x8000, 0xFFFF, 0x0100]
+BOUNDARY8 = [0, 1, 2, 3, 0x7F, 0x80, 0xFF]; BOUNDARY16 = [0, 1, 2, 3, 0x7F, 0x80, 0xFF, 0x7FFF, 0x8000, 0xFFFF, 0x0100]
 
 def jobs(tier, seed):
     out = []
